@@ -164,6 +164,18 @@ Definition creates_unbounded (tx rx : string) (f : fn_def) : bool :=
                              | ECall (EPath ["channel"; k]) _ => negb (String.eqb k "unbounded")
                              | _ => false end) (flat_map (subexprs depth_fuel) (fn_body f))).
 
+(* the reloader thread is spawned with the platform's default stack (no stack_size): it is the thread
+   that runs every loader of a pass and the recursive dependency walk *)
+Definition spawns_with_default_stack (f : fn_def) : bool :=
+  existsb (fun e => match e with
+                    | ESemi (EMethod (EMethod (EMethod (ECall (EPath ["thread"; "Builder"; "new"]) []) "name" [_]) "spawn"
+                                        [EClosure [] (ECall (EPath ["hot_reloading_thread"]) _)]) "unwrap" []) => true
+                    | _ => false end) (fn_body f)
+  && negb (existsb (fun e => match e with EMethod _ "stack_size" _ => true | _ => false end)
+             (flat_map (subexprs depth_fuel) (fn_body f))).
+Lemma reloader_thread_has_the_default_stack : spawns_with_default_stack HotReloader_start = true.
+Proof. vm_compute. reflexivity. Qed.
+
 Lemma reloader_channels_never_block_senders :
   creates_unbounded "cache_msg_tx" "cache_msg_rx" HotReloader_start = true /\
   creates_unbounded "events_tx" "events_rx" HotReloader_make = true.
